@@ -13,6 +13,12 @@
    / get_mean, LogNormal wrapper); estimate and variance are compared with TLC's rationals
    at 1e-9: the property-level oracle.  The assembled matrix / right-hand sides / chunk
    slices captured by wrappers are compared entry-wise: drift-level.
+2b. Histories on one object (KrigeSysHist.tla): attribute re-assignments, in-place model changes and the
+   set_condition() refresh, every call compared with TLC's exact table.  Where the fitted quantity is a real
+   number (fit_normalizer, fit_variogram) or the system is too large for TLC (40-80 points with coincident
+   copies) the property is decided as a relation between implementation outputs: exactness at the data, equality
+   with the object built from a copy of the fitted normalizer / model, duplicated set == merged set; tolerance
+   from the conditioning, ill-conditioned or non-converging cases are counted as inconclusive.
 3. Auxiliary (never deciding): other model classes, anisotropy/rotation, lat-lon solved
    with numpy on well conditioned systems; reported as ``aux_numeric``.
 """
@@ -1123,6 +1129,111 @@ def fitted_normalizer_relation(col, rng, count):
     return stats
 
 
+def _variant_nd(gs, name, model, pos, val, ext, **kw):
+    dim = model.dim
+    if name == "Simple":
+        return gs.krige.Simple(model, pos, val, mean=float(np.mean(val)), **kw)
+    if name == "Ordinary":
+        return gs.krige.Ordinary(model, pos, val, **kw)
+    if name == "Universal":
+        return gs.krige.Universal(model, pos, val, "linear", **kw)
+    if name == "ExtDrift":
+        return gs.krige.ExtDrift(model, pos, val, ext, **kw)
+    return gs.krige.Krige(model, pos, val, drift_functions=[(lambda *x: x[0])], unbiased=False, mean=float(np.mean(val)), **kw)
+
+
+def fitted_variogram_relation(col, rng, count):
+    """C05 / C06: Krige(start model, fit_variogram=True) -- at construction or through
+    set_condition(fit_variogram=True) on an existing object -- must (a) reproduce the data with zero variance
+    when the measurement error is zero (exact=True) and (b) equal the object built with a copy of the fitted
+    model.  The fitted parameters are real numbers: relations between implementation outputs; fits that do
+    not converge or give an ill-conditioned system are inconclusive."""
+    import copy
+
+    import gstools as gs
+
+    Capture.install()
+    nprng = np.random.default_rng(rng.randrange(2**31))
+    stats = {"cases": 0, "inconclusive": 0, "fit_failed": 0, "fit_changed_anis": 0, "max_scaled_error_at_data": 0.0,
+             "max_difference_to_prefitted": 0.0}
+    variants = ["Ordinary", "Simple", "Universal", "ExtDrift", "Krige"]
+    for it in range(count):
+        dim = 2 if it % 3 else 3
+        n = rng.randrange(90, 150) if dim == 2 else rng.randrange(140, 190)
+        mcls = rng.choice(["Exponential", "Spherical", "Stable", "Matern"])
+        t_anis = [rng.choice([0.25, 0.5])] * (dim - 1)
+        t_ang = [rng.uniform(0.0, 3.0)] + [0.0] * (2 if dim == 3 else 0)
+        truth = getattr(gs, mcls)(dim=dim, var=2.0, len_scale=12.0, anis=t_anis, angles=t_ang if dim == 3 else t_ang[0])
+        pos = nprng.uniform(0.0, 50.0, (dim, n))
+        val = gs.SRF(truth, seed=rng.randrange(1, 10**6))(pos) + 0.0
+        ext, ext_t = nprng.normal(size=n), nprng.normal(size=8)
+        tgt = nprng.uniform(0.0, 50.0, (dim, 8))
+        iso = it % 5 == 4                       # control: isotropic start model (the fit keeps anis = 1)
+        s_anis = [1.0] * (dim - 1) if iso else [rng.choice([0.8, 0.6, 1.5])] * (dim - 1)
+        def start():
+            return getattr(gs, mcls)(dim=dim, var=1.0, len_scale=5.0, anis=s_anis, angles=t_ang if dim == 3 else t_ang[0])
+
+        vname = variants[it % len(variants)]
+        exact = it % 4 != 3
+        via_set = rng.random() < 0.4
+        tag = "%s/%s/dim=%d%s%s" % (vname, mcls, dim, "/exact" if exact else "",
+                                    "/set_condition(fit_variogram=True)" if via_set else "/fit_variogram=True")
+        rp = {"variant": vname, "model_class": mcls, "dim": dim, "start_anis": s_anis, "angles": t_ang, "exact": exact,
+              "via_set_condition": via_set, "pos": pos, "val": val, "ext_drift": ext}
+        kw = {"ext_drift": ext} if vname == "ExtDrift" else {}
+        kwt = {"ext_drift": ext_t} if vname == "ExtDrift" else {}
+        try:
+            with Capture() as cap:
+                if via_set:
+                    k = _variant_nd(gs, vname, start(), pos, val, ext, exact=exact)
+                    k(tgt, **kwt)         # use the object before it is refitted
+                    k.set_condition(fit_variogram=True)
+                else:
+                    k = _variant_nd(gs, vname, start(), pos, val, ext, exact=exact, fit_variogram=True)
+        except Exception:  # noqa: BLE001  a fit that does not converge / violates its bounds: not judged
+            stats["fit_failed"] += 1
+            continue
+        cond = float(np.linalg.cond(cap.mats[-1])) if cap.mats else float("inf")
+        if not (cond < 1e8 and np.all(np.isfinite(cap.mats[-1]))):
+            stats["inconclusive"] += 1
+            continue
+        fitted = copy.deepcopy(k.model)
+        stats["fit_changed_anis"] += int(not np.allclose(np.atleast_1d(fitted.anis), s_anis))
+        try:
+            f, v = _guard("call", k, pos, **kw)
+            ft, vt = _guard("call", k, tgt, **kwt)
+            k2 = _guard("construct", _variant_nd, gs, vname, fitted, pos, val, ext, exact=exact)
+            f2, v2 = _guard("call", k2, pos, **kw)
+            ft2, vt2 = _guard("call", k2, tgt, **kwt)
+        except CodeRaised as e:
+            col.violation("C05", "fitted-variogram:%s:raises" % vname, "%s: %s raised %r" % (tag, e.where, e.exc), rp)
+            continue
+        col.calls += 4
+        stats["cases"] += 1
+        scale = max(1.0, float(np.max(np.abs(val))))
+        tol = max(1e-8, 1e-13 * cond)
+        rp["fitted_model"] = repr(fitted)
+        d = float(max(np.max(np.abs(f - f2)), np.max(np.abs(ft - ft2))) / scale + max(np.max(np.abs(v - v2)), np.max(np.abs(vt - vt2))) / fitted.sill)
+        stats["max_difference_to_prefitted"] = max(stats["max_difference_to_prefitted"], d / tol)
+        if not d <= tol:
+            col.violation("C05", "fitted-variogram-vs-prefitted:%s:%s" % (vname, "set_condition" if via_set else "construction"),
+                          "%s: the object with the fitted variogram differs from the one built with a copy of its fitted model %r "
+                          "by %r (tolerance %r, condition number %.3g)" % (tag, fitted, d, tol, cond), rp)
+        if exact or fitted.nugget == 0.0:
+            err = float(np.max(np.abs(f - val))) / scale
+            ev = float(np.max(np.abs(v))) / fitted.sill
+            stats["max_scaled_error_at_data"] = max(stats["max_scaled_error_at_data"], max(err, ev) / tol)
+            if not err <= tol:
+                col.violation("C06", "exact-at-data:%s:fitted-variogram" % vname,
+                              "%s (fitted %r): zero measurement error but the field at the conditioning points deviates from the "
+                              "conditioning values by %r (tolerance %r)" % (tag, fitted, err * scale, tol * scale), rp)
+            if not ev <= tol:
+                col.violation("C06", "zero-var-at-data:%s:fitted-variogram" % vname,
+                              "%s (fitted %r): zero measurement error but the kriging variance at the conditioning points is %r"
+                              % (tag, fitted, ev * fitted.sill), rp)
+    return stats
+
+
 def duplicates_large_relation(col, rng, count):
     """C06: k coincident copies == one point carrying their mean value, for 40-80 point layouts
     (relation between two implementation outputs; DuplicatesMerge is the exact small-scale theorem)."""
@@ -1236,6 +1347,8 @@ def _work(item):
     try:
         if kind == "fit":
             stats, name = fitted_normalizer_relation(col, rng, job[1]), "fitted_normalizer"
+        elif kind == "vfit":
+            stats, name = fitted_variogram_relation(col, rng, job[1]), "fitted_variogram"
         else:
             stats, name = duplicates_large_relation(col, rng, job[1]), "duplicates_large"
     except Exception as e:  # noqa: BLE001
@@ -1404,6 +1517,8 @@ def run(pid, tier, seed, replay=None):
             nrel = 6 if thorough else 2
             work += [("fit", (rng.randrange(2**31), 50 if thorough else 20)) for _ in range(nrel)]
             work += [("dup", (rng.randrange(2**31), 40 if thorough else 12)) for _ in range(nrel)]
+        if not os.environ.get("VERIF_ONLY"):
+            work += [("vfit", (rng.randrange(2**31), 30 if thorough else 10)) for _ in range(6 if thorough else 3)]
         work.sort(key=lambda w: {"hist": 0, "gen": 1}.get(w[0], 2))
         import multiprocessing as mp
 
@@ -1437,7 +1552,7 @@ def run(pid, tier, seed, replay=None):
                 for m in res["drift"]:
                     rep.drift_msg(m)
         print("replay: %d configurations / histories in %.1fs" % (nconf, time.time() - t0))
-        for k_ in ("relation_fitted_normalizer", "relation_duplicates_large"):
+        for k_ in ("relation_fitted_normalizer", "relation_duplicates_large", "relation_fitted_variogram"):
             if rep.extra.get(k_, {}).get("inconclusive"):
                 rep.note("%s: %d cases inconclusive (ill-conditioned system), not judged" % (k_, rep.extra[k_]["inconclusive"]))
         rep.extra["configurations_replayed"] = nconf
